@@ -16,6 +16,9 @@ CONSTANTS NTasks, MaxT, MD, MaxCalls, DueCheck, AtomicHandlers,
           RepIv,          \* interval of Task.Repeat calls in clock ticks (0: no Repeat calls are explored)
           ResetUnderLock, \* executeAt is cleared together with the start decision, under the task lock (TRUE = repaired
                           \* tree; FALSE = pinned tree: cleared by the launched goroutine without the lock, finding F-C07-4)
+          KeepQueued,     \* when the schedule handler finds the max delay of a queued task expired while the task is still executing,
+                          \* the submission stays in its queue and the entry is re-armed one max delay later (TRUE = repaired tree;
+                          \* FALSE: finding F-C07-2, the submission made during the run was dropped)
           QueueElemCheck, \* runWithLocking ignores the queue handler's pop when the task no longer holds the popped queue element
                           \* (TRUE = repaired tree; FALSE: finding F-C07-3)
           SchedElemCheck, \* runWithLocking ignores the schedule handler's decision when the task no longer holds the schedule entry
@@ -141,13 +144,16 @@ Tick == /\ s.now < MaxT /\ s' = [s EXCEPT !.now = @ + 1] /\ last' = Lbl("tick", 
 
 \* ------------------------------------------------------------------ runWithLocking (locked part)
 \* returns the new state and whether the task goes on to execute
-RWL(r, t) ==
+RWL(r, t, bysh) ==
     LET r1 == [r EXCEPT !.queue = IF r.qe[t] THEN Remove(@, t) ELSE @,
                         !.prio = IF r.pe[t] THEN Remove(@, t) ELSE @,
                         !.sched = IF r.se[t] THEN Remove(@, t) ELSE @,
                         !.overtime[t] = IF r.se[t] /\ Fault # "staleovertime" THEN FALSE ELSE @,
                         !.qe[t] = FALSE, !.pe[t] = FALSE, !.se[t] = FALSE]
-    IN IF r.executing[t]
+    IN IF r.executing[t] /\ bysh /\ KeepQueued
+       THEN LET ea == [r.execAt EXCEPT ![t] = r.now + MD]
+            IN [go |-> FALSE, r |-> [r EXCEPT !.execAt = ea, !.overtime[t] = TRUE, !.sched = Ins(Remove(r.sched, t), t, ea), !.notif = TRUE]]
+       ELSE IF r.executing[t]
        THEN [go |-> FALSE, r |-> [r1 EXCEPT !.lost = @ \/ (r.subAfter[t] /\ ~r.canceled[t] /\ r.subKind[t] # "none"),
                                             !.subKind[t] = IF r.canceled[t] THEN @ ELSE "none"]]
        ELSE IF (IF Fault = "cancelctx" THEN r.ctxc[t] ELSE r.canceled[t])
@@ -180,7 +186,7 @@ PoppedHeld == \/ s.qg.k = "q" /\ s.qe[s.qt] /\ s.qgen[s.qt] = s.qg.n
 QRwl == /\ s.qh = "rwl"
         /\ IF QueueElemCheck /\ ~AtomicHandlers /\ ~PoppedHeld
            THEN s' = [s EXCEPT !.qh = "wgwait"]
-           ELSE LET x == RWL(s, s.qt) IN s' = [x.r EXCEPT !.qh = IF x.go THEN "launch" ELSE "wgwait",
+           ELSE LET x == RWL(s, s.qt, FALSE) IN s' = [x.r EXCEPT !.qh = IF x.go THEN "launch" ELSE "wgwait",
                                                            !.qdrop = @ \/ (s.running[s.qt] /\ ~s.canceled[s.qt])]
         /\ last' = Lbl("qh", s.qt, "rwl", 0)
 QLaunch == /\ s.qh = "launch" /\ s' = [Launch(s, s.qt) EXCEPT !.qh = "wgwait"] /\ last' = Lbl("qh", s.qt, "launch", 0)
@@ -218,7 +224,7 @@ SAsap == /\ s.sh = "asap"
 SRwl == /\ s.sh = "rwl"
         /\ IF SchedElemCheck /\ ~AtomicHandlers /\ (~s.se[s.st] \/ s.sgen[s.st] # s.sg)
            THEN s' = [s EXCEPT !.sh = "arm"]
-           ELSE LET x == RWL(s, s.st) IN s' = [x.r EXCEPT !.sh = IF x.go THEN "launch" ELSE "arm"]
+           ELSE LET x == RWL(s, s.st, TRUE) IN s' = [x.r EXCEPT !.sh = IF x.go THEN "launch" ELSE "arm"]
         /\ last' = Lbl("sh", s.st, "rwl", 0)
 SLaunch == /\ s.sh = "launch"
            /\ s' = [Launch(s, s.st) EXCEPT !.sh = "arm", !.slot[s.st] = IF Fault = "noslot" THEN FALSE ELSE @]
